@@ -119,7 +119,8 @@ def gen(rng, idx, tier, seed):
             fs = {'core': gen_core.gen_filespec(rng)}
         return {'mode': 'program', 'file': fs,
                 'prog_seed': int(rng.integers(1 << 30)),
-                'nops': int(rng.integers(1, 5))}
+                'nops': int(rng.integers(1, 5)),
+                'fn': bool(idx % 3 == 0 and 'core' in fs)}
     idx -= NPROG[tier]
     if idx < NQUERY[tier]:
         kind = ['cf', 'cf', 'ioapi', 'griddesc0', 'cf', 'ioapi635'][idx % 6]
@@ -264,10 +265,15 @@ def run_program(spec, res):
                          '(shares_memory pairs %s; program %s)'
                          % (st.desc, 'receiver' if i == 0 else 'argument',
                             '; '.join(d[:5]), shared[:4], trace),
-                         op=st.op, diffs=d[:8], meta=st.meta)
+                         op=st.op, diffs=d[:8], meta=st.meta,
+                         shared=[list(p) for p in shared[:16]])
         restore()
 
-    ops.run_program(f, spec['prog_seed'], spec['nops'], on_step=on_step)
+    allowed = None
+    if spec.get('fn'):
+        allowed = list(ops.CORE_OPS) + list(ops.FN_OPS) * 2
+    ops.run_program(f, spec['prog_seed'], spec['nops'], allowed=allowed,
+                    on_step=on_step)
 
 
 # ---------------------------------------------------------------------------
